@@ -35,6 +35,9 @@ def main(tier, only=None):
     n, fails = checks_a.vspace_pairs_check()
     results.append({"key": "VS concrete: vspace equality on %d value pairs and freshness of mut_add(None, x)" % n, "status": "violation" if fails else "holds", "detail": "; ".join(fails[:5]),
                     "paths": n, "queries": 0, "validated": n, "verdicts": {}, "cex": {"env": {}, "mode": "vspace-concrete"}})
+    n2, fails2 = checks_a.vspace_namedtuple_check()
+    results.append({"key": "VS concrete: numpy.linalg result named tuples (EigResult, EighResult, QRResult, SlogdetResult, SVDResult): closure of every operation in the value's own container type and space, leaf-wise axioms (%d checks)" % n2,
+                    "status": "violation" if fails2 else "holds", "detail": "; ".join(fails2[:5]), "paths": n2, "queries": 0, "validated": n2, "verdicts": {}, "cex": {"env": {}, "mode": "vspace-concrete"}})
     return runner.finish(
         ID, tier, results, t0,
         functions=["autograd.core:VSpace.add / mut_add / scalar_mul / inner_prod / covector (primitives) and _add/_mut_add/_scalar_mul/_covector", "autograd.core:vspace", "autograd.numpy.numpy_vspaces:ArrayVSpace, ComplexArrayVSpace (zeros, ones, standard_basis, size, _inner_prod, _covector)",
